@@ -20,6 +20,7 @@ type Expr struct {
 	C    int64      // for "const" (ints, bools as 0/1), field index for "fv"
 	S    string     // symbol: leaf name, field name, type name, string const
 	Typ  types.Type // static Go type (may be nil for synthetic terms)
+	Aux  string     // not part of the key: owning struct type of a field address
 	Key  string
 }
 
@@ -430,8 +431,10 @@ func mkField(x *Expr, name string, idx int, typ types.Type) *Expr {
 	return mk("fv", typ, name, int64(idx), x)
 }
 
-func mkFieldAddr(base *Expr, name string, idx int, typ types.Type) *Expr {
-	return mk("fa", typ, name, 0, base)
+func mkFieldAddr(base *Expr, name string, idx int, typ types.Type, owner string) *Expr {
+	e := mk("fa", typ, name, 0, base)
+	e.Aux = owner
+	return e
 }
 
 func mkIndexAddr(base, i *Expr, typ types.Type) *Expr {
